@@ -31,6 +31,8 @@ pub struct Iso {
     pub frames: Vec<Vec<u8>>,
     pub panic: Option<String>,
     pub end: End,
+    /// tail of what the child wrote to stderr (abort messages of the runtime land here)
+    pub stderr: String,
 }
 
 impl Iso {
@@ -46,7 +48,27 @@ impl Iso {
         match self.end {
             End::Exited(0) => None,
             End::Exited(c) => Some(format!("exit {c}")),
-            End::Signaled(s) => Some(format!("signal {}", signal_name(s))),
+            End::Signaled(s) => {
+                // aborts that std reports on stderr without unwinding
+                if self.stderr.contains("memory allocation of") {
+                    Some("memory allocation of N bytes failed (abort)".to_string())
+                } else if self.stderr.contains("has overflowed its stack") {
+                    Some(format!("native stack overflow ({})", signal_name(s)))
+                } else {
+                    // first non-empty stderr line (e.g. std's "unsafe precondition(s) violated" abort)
+                    let line = self
+                        .stderr
+                        .lines()
+                        .map(str::trim)
+                        .find(|l| !l.is_empty() && !l.starts_with("note:") && !l.starts_with("stack backtrace"))
+                        .unwrap_or("");
+                    if line.is_empty() {
+                        Some(format!("signal {}", signal_name(s)))
+                    } else {
+                        Some(format!("signal {}: {}", signal_name(s), normalise_panic(line)))
+                    }
+                }
+            }
             End::Timeout => Some("timeout".to_string()),
         }
     }
@@ -167,6 +189,8 @@ pub fn run<F: FnOnce(&mut Out)>(opts: Opts, body: F) -> Iso {
         panic!("pipe failed: {}", std::io::Error::last_os_error());
     }
     let (rd, wr) = (fds[0], fds[1]);
+    // anonymous file that receives the child's stderr
+    let efd = unsafe { libc::memfd_create(c"nsverif-child-stderr".as_ptr(), 0) };
     // Flush our own buffered stdout so the child does not re-emit it.
     let _ = std::io::stdout().flush();
     let pid = unsafe { libc::fork() };
@@ -182,7 +206,7 @@ pub fn run<F: FnOnce(&mut Out)>(opts: Opts, body: F) -> Iso {
             if devnull >= 0 {
                 unsafe {
                     libc::dup2(devnull, 1);
-                    libc::dup2(devnull, 2);
+                    libc::dup2(if efd >= 0 { efd } else { devnull }, 2);
                     libc::dup2(devnull, 0);
                 }
             }
@@ -249,6 +273,27 @@ pub fn run<F: FnOnce(&mut Out)>(opts: Opts, body: F) -> Iso {
     } else {
         End::Exited(libc::WEXITSTATUS(status))
     };
+    let mut stderr = String::new();
+    if efd >= 0 {
+        let size = unsafe { libc::lseek(efd, 0, libc::SEEK_END) };
+        if size > 0 {
+            // head (where the abort message is) and tail
+            let read_at = |off: i64, want: usize| -> String {
+                let mut ebuf = vec![0u8; want];
+                let n = unsafe { libc::pread(efd, ebuf.as_mut_ptr().cast(), want, off) };
+                if n > 0 { String::from_utf8_lossy(&ebuf[..n as usize]).into_owned() } else { String::new() }
+            };
+            let size = size as usize;
+            if size <= 8192 {
+                stderr = read_at(0, size);
+            } else {
+                stderr = read_at(0, 4096);
+                stderr.push_str("\n[...]\n");
+                stderr.push_str(&read_at((size - 4096) as i64, 4096));
+            }
+        }
+        unsafe { libc::close(efd) };
+    }
     let mut frames = Vec::new();
     let mut panic = None;
     let mut i = 0usize;
@@ -266,5 +311,5 @@ pub fn run<F: FnOnce(&mut Out)>(opts: Opts, body: F) -> Iso {
         }
         i += 5 + len;
     }
-    Iso { frames, panic, end }
+    Iso { frames, panic, end, stderr }
 }
